@@ -2,15 +2,21 @@ package main
 
 import (
 	"bufio"
+	"bytes"
 	"encoding/json"
 	"flag"
 	"fmt"
 	"hash/fnv"
 	"os"
+	"reflect"
 	"runtime/debug"
 	"sort"
 	"strings"
 	"time"
+	"unsafe"
+
+	"github.com/philpearl/plenc"
+	"github.com/philpearl/plenc/plenccodec"
 )
 
 // Runner writes each op before executing it (so a fatal crash leaves the
@@ -92,6 +98,25 @@ func main() {
 		dir := fs.String("dir", ".", "work dir")
 		fs.Parse(os.Args[2:])
 		runProp(*prop, *tier, *seed, *dir)
+	case "pkgreg":
+		// a process of its own: package-level registration before the package-level default is first used
+		plenc.RegisterCodec(reflect.TypeOf(time.Time{}), plenccodec.BQTimestampCodec{})
+		type holder struct {
+			T time.Time `plenc:"1"`
+		}
+		at := time.Unix(1700000000, 123456000).UTC()
+		data, err := plenc.Marshal(nil, &holder{T: at})
+		if err != nil {
+			fmt.Println("ok wrong: " + err.Error())
+			os.Exit(1)
+		}
+		want := append([]byte{0x08}, plenccodec.BQTimestampCodec{}.Append(nil, unsafe.Pointer(&at), nil)...)
+		if !bytes.Equal(data, want) {
+			fmt.Printf("ok wrong: the codec registered on the package-level default before its first use is not used: got %x want %x\n", data, want)
+			os.Exit(1)
+		}
+		fmt.Println("ok")
+		return
 	case "replay":
 		// execute ops from a file (or stdin), print results
 		fs := flag.NewFlagSet("replay", flag.ExitOnError)
